@@ -412,20 +412,15 @@ class Unit:
         if value == 0:
             return value, unit
         value = abs(value)
-        if unit[-1] == 'L':
-            unit = 'L'
-        elif unit[-3:] == 'mol':
-            unit = 'mol'
-        elif unit[-1] == 'g':
-            unit = 'g'
-        elif unit[-1] == 'U':
-            unit = 'U'
+        for base_unit in ('L', 'mol', 'g', 'U'):
+            if unit.endswith(base_unit):
+                value *= Unit.convert_prefix_to_multiplier(unit[:-len(base_unit)])
+                unit = base_unit
+                break
         multiplier = 1.0
-        while value < 1:
+        while value < 1 and multiplier > 1e-6:
             value *= 1e3
             multiplier /= 1e3
-
-        multiplier = max(multiplier, 1e-6)
 
         return value, {1: '', 1e-3: 'm', 1e-6: 'u'}[multiplier] + unit
 
